@@ -185,8 +185,11 @@ def core_lite():
         for clock in FACTORS["clock"]:
             for heights in FACTORS["heights"]:
                 for tp in (None, "constant", "skyride"):
-                    for init in (None, "root_height_init_low"):
-                        if init and not (clock == "strict" and tp == "constant"):
+                    for init in (None, "root_height_init_low", "coalescent_non_centered"):
+                        if init == "root_height_init_low" and not (clock == "strict" and tp == "constant"):
+                            continue
+                        if init == "coalescent_non_centered" and not (clock == "strict" and tp == "skyride"
+                                                                      and heights == "ratio"):
                             continue
                         yield {"cmd": cmd, "model": "HKY", "categories": 1, "invariant": False, "clock": clock,
                                "heights": heights, "treeprior": tp, "grid": None, "cutoff": None, "family": "meanfield",
